@@ -79,8 +79,7 @@ def short_callee(c):
 
 
 def run(chk):
-    w = facts.world("W")
-    chk.configs.add("W")
+    w = C.world_for(chk)
     for rid, txt in (("R18.2", "unsafe inventory complete and every obligation re-derived"), ("R03.2", "UTF-8 validity of the as_mut_vec region (shared with C03)"),
                      ("R11.3", "to_int_unchecked guards (shared with C11)"), ("R06.3", "state vectors (shared with C06)"), ("R15.3", "wsconst ranges (shared with C15)"),
                      ("R05.4", "non-empty sentences (shared with C05)")):
@@ -137,7 +136,7 @@ def ob_strpos(chk, w):
         names = b.names()
         s2c = [i for i in range(1, b.arg_count + 1) if names.get(i) == "str_to_char_pos"]
         # structural identification: the &mut Vec<usize> parameter that is resized
-        usize_params = [i for i in range(1, b.arg_count + 1) if b.locals[i]["ty"] == "&mut std::vec::Vec<usize>"]
+        usize_params = [i for i in range(1, b.arg_count + 1) if C.tyn(b.locals[i]["ty"]) == "&mut S::vec::Vec<usize>"]
         rs = C.all_calls(outs, lambda e: e[2] == "alloc::vec::Vec::resize" and e[3][0][0] == "ref" and e[3][0][1][0] in [("A", i) for i in usize_params])
         okr = False
         form = None
